@@ -298,6 +298,55 @@ CLAIMS = {
     note="Trusted: Go.Check as our reading of the Go spec (accepts the 73 corpus programs real Go accepted, rejects 058 as real Go did); "
          "goast dump; go_pprint.rs not covered.",
     technique="translation validation with a Lean-defined Go type/scope checker on the real Go AST"),
+ "C14": dict(
+    category="proof",
+    text="Lean theorems over Sem (Model/Sem.lean) and Model/Alpha.lean about exactly the two things in which the Core handed to mono/lift/anf/go differs "
+         "between the two ways of compiling a project - the order in which the packages' functions are concatenated (discovery order vs topological order) "
+         "and the numbering of compile_match's temporaries (one Gensym for the program vs one per package): run_perm_invariant (if function names are pairwise "
+         "distinct, Sem.run is invariant under every permutation of the function list), run_alpha_invariant_partial (renaming every function by its own renaming "
+         "does not change Sem.run when the renaming is injective on the function's names and every moved variable is let-bound inside the body; partial: closure-free "
+         "Core), separate_eq_whole_validated (a decidable validator on two Core programs - every function has a renamed twin, no extra function, dyn tables answer "
+         "alike, hypotheses of the renaming theorem - is sound: it accepts only programs that run alike), check_build_same_interface (in the C15 model of the "
+         "artefact protocol check and build accept together, write the same .interface, and the interface inside the .core is that file). Tie: on every run the "
+         "validator is evaluated by gomlmodel on the real linked Core and the real whole-program Core of every accepted project with the per-function shift of "
+         "temporaries as renaming; outside the closure-free fragment an unverified structural comparison (renamed function = function) is used instead. "
+         "Model-free oracle on the real pipeline: the 8 corpus package projects and generated multi-package projects (all DAG shapes on <= 5 packages, cross-package "
+         "traits, impls, generic functions with bounds, generic enums/structs instantiated across packages, closures, multi-file packages, ill-typed variants) are "
+         "compiled whole and separately in every topological order (sampled in the quick tier) with .interface/.core written to and re-read from JSON files; "
+         "acceptance must agree (same stage when rejected), Go.Sem of both Go ASTs and Sem of both Cores must give the same outcome, Go.Check must agree, and "
+         "check_package / build_package must serialise the same interface bytes.",
+    design_ref="§5 C14, 'C14 — as built'",
+    note="For programs with closures (about three quarters of the generated projects) equality of behaviour is observed under Sem/Go.Sem, not proved: a closure value "
+         "carries its body and environment, so the renaming theorem needs a relation on values instead of equality. The stages after Core (mono, lift, anf, go) are "
+         "the same code in both ways and are covered by the behavioural oracle only. Trusted: Lean kernel; Sem/Go.Sem/Go.Check; the Core/Go dumps and their decoders; "
+         "the project generator. No defect found on the tree.",
+    technique="Lean 4 proof (induction on fuel over the mutual interpreter; verified validator) + differential correspondence of the real Core + behavioural oracle over all topological orders"),
+ "C18": dict(
+    category="proof",
+    text="Lean theorems over Model/Derive.lean, which holds what the generated to_json / to_string return as functions on values (toJson, toString, "
+         "following build_struct_json_body / build_enum_json_body / build_struct_body / build_enum_body / concat_parts), the runtime's json_escape_string "
+         "(jsonQuote), Go's %q (goQuote, parametric in unicode.IsPrint), an RFC 8259 reader (jsonRead), the declarative structure (encode / decode), and the "
+         "generated method bodies as an AST with the derive's binder choice (genJson, genString, scoped). Proved for all definitions, values and strings: "
+         "toJson_wellformed_partial (for every set of non-generic definitions with identifier names, every well-typed value - any nesting, recursion through "
+         "enums - and every string, jsonRead (toJson v) = some (encode v): an object per struct in field order, tag / fields per variant), "
+         "toJson_roundtrip_partial (decoding that structure at the value's type gives the value back), json_escape_total (json_escape_string followed by a JSON "
+         "reader is the identity on all strings), json_escape_is_runtime_table (the character-wise escaper of the model equals the chain of strings.ReplaceAll "
+         "calls regenerated from go/runtime.rs), goQuote_json_safe_partial (what the helper used to be, %q, is JSON exactly on a decidable set of runes; \\a \\v "
+         "\\xNN \\UNNNNNNNN are not, as examples), toString_shape (the generated part list equals the intercalate rendering Name { f: v } / Enum::Variant(v)), "
+         "generated_code_computes (the generated method bodies, as the AST the derive appends, evaluate to toJson / toString under the arm's bindings), "
+         "derive_total (for every definition the generated bodies are well-scoped: binders pairwise distinct, every variable bound, no helper of the regenerated "
+         "dispatch tables shadowed by a binder or by self). Tied to the Rust three ways on every run: (1) translator - Gen/Derive.lean (primitive_to_string_fn, "
+         "call_to_json arms, binder prefix, json_escape_string replacement table) with shape assertions on every literal piece of the four body builders; "
+         "(2) L1 on the derive itself - the impl blocks derive::expand appends to generated programs, serialised, must equal genString / genJson; (3) L1 on "
+         "behaviour - stdout of the real Go AST under Go.Sem and of the real Core under Sem must equal the model's text. Model-free oracle: every printed to_json "
+         "line must parse with Python's json module to the value a declarative Rust writer (serde_json for strings) gives, and with jsonRead to encode; to_string "
+         "must equal a join-style rendering computed in Rust; definitions the derive cannot handle must be rejected with a diagnostic in lower/typer.",
+    design_ref="§5 C18, 'C18 — as built'",
+    note="_partial: a float leaf is modelled by its %g text and assumed to be a JSON number (finite); non-finite floats print +Inf/-Inf/NaN - known finding. "
+         "Go's %g shortest-digit formatting (Sem.showFloat) is validated against Rust's shortest digits on random bit patterns, not proved. Trusted: Lean kernel; "
+         "Go.Sem/Sem as the meaning of the emitted Go (strings.ReplaceAll, fmt verbs); tools/extract.py; harness generator and serialisers; Python's json module. "
+         "Three defects fixed in the repository copy (primitive fields rejected in generated code; field named like a helper captured it; %q is not JSON).",
+    technique="Lean 4 proof (mutual induction over nested values; parser-printer round trip; decide over regenerated tables) + translator + differential correspondence (AST and behaviour) + independent JSON readers"),
 }
 
 NOT_YET = "not claimed yet: the model/theorems/tie for this property are still being built (see DESIGN.md §5)"
